@@ -46,11 +46,20 @@ pub enum TKind {
 const AFTER_PAYLOADS: [Duration; 4] = [Duration::ZERO, Duration::from_nanos(1), Duration::from_millis(300), Duration::from_nanos(u64::MAX)];
 
 fn after_payload(i: usize) -> Duration {
-    AFTER_PAYLOADS[i]
+    // beyond the boundary table (long scripted histories): ordinary, pairwise distinct values
+    AFTER_PAYLOADS.get(i).copied().unwrap_or(Duration::from_millis(1000 + i as u64))
 }
 
 fn after_index(d: Duration) -> usize {
-    AFTER_PAYLOADS.iter().position(|x| *x == d).unwrap_or(usize::MAX)
+    if let Some(i) = AFTER_PAYLOADS.iter().position(|x| *x == d) {
+        return i;
+    }
+    let ms = d.as_millis();
+    if d == Duration::from_millis(ms as u64) && ms >= 1004 && ms < 1_000_000 {
+        (ms - 1000) as usize
+    } else {
+        usize::MAX
+    }
 }
 
 fn at_payloads() -> [SystemTime; 4] {
@@ -63,11 +72,17 @@ fn at_payloads() -> [SystemTime; 4] {
 }
 
 fn at_payload(i: usize) -> SystemTime {
-    at_payloads()[i]
+    at_payloads().get(i).copied().unwrap_or(SystemTime::UNIX_EPOCH + Duration::from_secs(5000 + i as u64))
 }
 
 fn at_index(t: SystemTime) -> usize {
-    at_payloads().iter().position(|x| *x == t).unwrap_or(usize::MAX)
+    if let Some(i) = at_payloads().iter().position(|x| *x == t) {
+        return i;
+    }
+    match t.duration_since(SystemTime::UNIX_EPOCH) {
+        Ok(d) if d.subsec_nanos() == 0 && d.as_secs() >= 5004 && d.as_secs() < 1_000_000 => (d.as_secs() - 5000) as usize,
+        _ => usize::MAX,
+    }
 }
 
 impl TKind {
@@ -1120,6 +1135,74 @@ pub mod legacy {
         }
         stats.states += 1;
         dfs(&mut vec![], &[], max_depth, max_timers, stats, found, sample);
+    }
+
+    /// Scripted long histories (an explicit list, each executed and checked step by step): many more
+    /// timers than the tree explores come and go while one cleared timer waits for its answer - sizes
+    /// around constants that bookkeeping of ids might use (64, 128).
+    pub fn scale_histories() -> Vec<Vec<LAct>> {
+        let mut out = vec![];
+        for n in [63usize, 64, 65, 130] {
+            for first in [TKind::After, TKind::At] {
+                // cleared while pending, then n timers come and go, then the late answer
+                let mut h = vec![LAct::Start(first), LAct::Clear(0)];
+                for k in 1..=n {
+                    h.push(LAct::Start(if k % 2 == 0 { TKind::At } else { TKind::After }));
+                    h.push(LAct::Fire(k));
+                }
+                h.push(LAct::Fire(0));
+                out.push(h);
+                // the same with the n timers all still pending when the late answer arrives
+                let mut h = vec![LAct::Start(first), LAct::Clear(0)];
+                for k in 1..=n {
+                    h.push(LAct::Start(if k % 3 == 0 { TKind::At } else { TKind::After }));
+                }
+                h.push(LAct::Fire(0));
+                for k in 1..=n {
+                    h.push(LAct::Fire(k));
+                }
+                out.push(h);
+            }
+            // n cleared timers wait at once; one uncleared timer completes; then all answers arrive
+            let mut h = vec![LAct::Start(TKind::After)];
+            for k in 1..=n {
+                h.push(LAct::Start(if k % 2 == 0 { TKind::At } else { TKind::After }));
+                h.push(LAct::Clear(k));
+            }
+            h.push(LAct::Fire(0));
+            for k in (1..=n).rev() {
+                h.push(LAct::Fire(k));
+            }
+            out.push(h);
+            // n timers cleared in the update that started them, then an ordinary clear-while-pending
+            let mut h = vec![];
+            for k in 0..n {
+                h.push(LAct::StartCleared(if k % 2 == 0 { TKind::At } else { TKind::After }));
+            }
+            h.push(LAct::Start(TKind::After));
+            h.push(LAct::Clear(n));
+            h.push(LAct::Fire(n));
+            out.push(h);
+        }
+        out
+    }
+
+    pub fn run_scale(stats: &mut TStats, found: &mut Vec<LFound>) -> usize {
+        let hs = scale_histories();
+        let n = hs.len();
+        for h in hs {
+            stats.histories += 1;
+            stats.transitions += h.len() as u64;
+            stats.steps += h.len() as u64;
+            match replay(&h, false) {
+                Ok(refs) => {
+                    stats.states += h.len() as u64;
+                    stats.outcomes.insert(refs.iter().map(|t| t.outcome).take(8).collect());
+                }
+                Err(f) => found.push(LFound { fail: f, history: h }),
+            }
+        }
+        n
     }
 
     pub fn case_json(hist: &[LAct]) -> Value {
